@@ -132,6 +132,17 @@ def neighbors_within(seqs, k, queries=None, dist="lev"):
                 if self_mode and ri == qi:
                     continue
                 out.add((qi, ri, d))
+    elif len(seqs) * len(queries) > 4000000:
+        # large collections: Hamming neighbours are Levenshtein neighbours of equal length (ham >= lev), so the trie search
+        # over-approximates the candidates and the Hamming distance is then evaluated literally
+        root = build_trie(seqs)
+        for qi, q in enumerate(queries):
+            for ri, _ in within_k(q, root, k):
+                if self_mode and ri == qi:
+                    continue
+                d = ref_hamming(q, seqs[ri])
+                if d <= k:
+                    out.add((qi, ri, d))
     else:
         bylen = {}
         for ri, r in enumerate(seqs):
